@@ -419,6 +419,11 @@ def _expand_match_element(
         # Element group
         normalized_group = normalize_element_groups(element.spec)
 
+        if element.return_var_name is not None:
+            raise ColangSyntaxError(
+                f"The return value of a group of events cannot be assigned to `${element.return_var_name}`"
+            )
+
         if len(normalized_group["elements"]) == 1:
             # Single and-group
             if len(normalized_group["elements"][0]["elements"]) == 1:
@@ -556,6 +561,11 @@ def _expand_await_element(
     else:
         # Element group
         normalized_group = normalize_element_groups(element.spec)
+
+        if element.return_var_name is not None:
+            raise ColangSyntaxError(
+                f"The return value of a group of flows/actions cannot be assigned to `${element.return_var_name}`"
+            )
 
         fork_uid: str = new_var_uuid()
         fork_element = ForkHead(fork_uid=fork_uid)
